@@ -105,7 +105,9 @@ func (state *inflate) setupDynamicHeader() error {
 		return errInvalidBlock
 	}
 
-	state.distTable.genForDists(ctx.litAndDistHuff[litLen:distLen+litLen], ctx.distCount[:], distLen)
+	if !state.distTable.genForDists(ctx.litAndDistHuff[litLen:distLen+litLen], ctx.distCount[:], distLen) {
+		return errInvalidBlock
+	}
 	err = ctx.setAndExpandLitLenHuffCode()
 	if err != nil {
 		return err
@@ -519,7 +521,7 @@ const (
 	distSymLenOffset   = smallShortCodeLenOffset
 )
 
-func (t *smallHuffCodeTable) genForDists(codes []huffCode, count []uint16, maxSymbol uint32) {
+func (t *smallHuffCodeTable) genForDists(codes []huffCode, count []uint16, maxSymbol uint32) (ok bool) {
 	var countTotal, countTotalTmp [17]uint32
 
 	for i := 2; i < 17; i++ {
@@ -531,7 +533,7 @@ func (t *smallHuffCodeTable) genForDists(codes []huffCode, count []uint16, maxSy
 	if codeListLen == 0 {
 		// no distance code at all: every lookup must fail, not hit a previous block's entries
 		t.ShortCodeLookup = [len(t.ShortCodeLookup)]uint16{}
-		return
+		return true
 	}
 	var codeList [distLen + 2]uint32 /* The +2 is for the extra codes in the static header */
 	for i, code := range codes {
@@ -595,7 +597,11 @@ func (t *smallHuffCodeTable) genForDists(codes []huffCode, count []uint16, maxSy
 				tempCodeLength++
 			}
 		}
-		for x := longCodeLookupLength; x < longCodeLookupLength+2*(1<<(maxLength-distLookupBits)); x++ {
+		if longCodeLookupLength+(1<<(maxLength-distLookupBits)) > uint32(len(t.LongCodeLookup)) {
+			// more long codes than any complete code has: only an incomplete (corrupt) code gets here
+			return false
+		}
+		for x := longCodeLookupLength; x < longCodeLookupLength+(1<<(maxLength-distLookupBits)); x++ {
 			t.LongCodeLookup[x] = 0
 		}
 
@@ -619,4 +625,5 @@ func (t *smallHuffCodeTable) genForDists(codes []huffCode, count []uint16, maxSy
 			(maxLength << smallShortCodeLenOffset) | smallFlagBit)
 		longCodeLookupLength += 1 << (maxLength - distLookupBits)
 	}
+	return true
 }
